@@ -17,6 +17,9 @@ KINDS = {
     "string": dict(type="std::string", mk='std::string("a b")', eq=True, arith=False, ordered=True, binary=False, labelled=True, braced='"abc"'),
     "tag": dict(type="verifprog::TagEq", mk='verifprog::TagEq{3, "t"}', eq=True, arith=False, ordered=False, binary=False, labelled=True, braced='{3, "t"}'),
     "empty": dict(type="verifprog::EmptyEq", mk="verifprog::EmptyEq()", eq=True, arith=False, ordered=False, binary=True, labelled=True),
+    # widths other than 1, 2, 4, 8 bytes through the binary routines with their default arguments
+    "ldouble": dict(type="long double", mk="2.5L", eq=True, arith=False, ordered=True, binary=True, labelled=True),
+    "tri": dict(type="verifprog::Tri", mk="verifprog::Tri{1.f, 2.f, 3.f}", eq=False, arith=False, ordered=False, binary=True, labelled=True, braced="{1.f, 2.f, 3.f}"),
     "plain": dict(type="verifprog::Plain", mk="verifprog::Plain{3, 0.5}", eq=False, arith=False, ordered=False, binary=True, labelled=True, braced="{3, 0.5}"),
 }
 
@@ -40,6 +43,7 @@ PRELUDE = r'''
 namespace verifprog {
 struct TagEq { int a = 0; std::string b; bool operator==(const TagEq &o) const { return a == o.a && b == o.b; } };
 struct Plain { int a; double b; };
+struct Tri { float x, y, z; };
 struct EmptyEq { bool operator==(const EmptyEq &) const { return true; } };
 inline std::string tmp(const char *name) {
     const char *d = std::getenv("VERIF_SCRATCH");
